@@ -18,4 +18,4 @@ one() {
 }
 export -f one
 mkdir -p /tmp/bx
-ls /verif/benign/*.diff | xargs -n1 basename | sed 's/.diff$//' | xargs -P $jobs -I{} bash -c "one {} $runs $props"
+ls /verif/benign/${BENIGN_GLOB:-*}.diff | xargs -n1 basename | sed 's/.diff$//' | xargs -P $jobs -I{} bash -c "one {} $runs $props"
